@@ -80,6 +80,21 @@ def drive_shape(args):
             an = copy.deepcopy(a)
             an['ph'][0] = math.nan
             cases.append(equal_case(an, copy.deepcopy(an), dtype, ['nan']))
+        # (6b) a NaN DEFAULT (what .grad uses for entries that are not parameters) against a re-patterned / denser copy
+        # that STORES those NaNs: equal under equal_nan=True, in both directions
+        if i % 2 == 0:
+            an = quarter_values(rng, PT.gen_pattern(rng, types, default=math.nan, start_id=1))
+            rn = PT.repattern(rng, an, types)
+            cases.append(equal_case(rn, an, dtype, ['nan_default']))
+            cases.append(equal_case(an, rn, dtype, ['nan_default', 'rev']))
+            dn = {'ps': [{'id': 900 + j, 'n': s_} for j, s_ in enumerate(PT.vshape(an))],
+                  'vs': [{'k': 'P', 'id': 900 + j, 'n': s_} for j, s_ in enumerate(PT.vshape(an))], 'd': math.nan, 'ph': None}
+            if all(s_ > 1 for s_ in PT.vshape(an)):
+                sa = PT.support_map(an)
+                import itertools
+                dn['ph'] = [an['ph'][sa[v]] if v in sa else math.nan for v in itertools.product(*[range(s_) for s_ in PT.vshape(an)])]
+                cases.append(equal_case(dn, an, dtype, ['nan_default', 'densified']))
+                cases.append(equal_case(an, dn, dtype, ['nan_default', 'densified', 'rev']))
     # clone / freshen / densify of the real object
     from fggs.indices import PatternedTensor
     for i in range(2):
